@@ -26,3 +26,11 @@ claim("C16", "defer-dominance per handler frame; joined/detached goroutine edges
       "Decided for all handler programs: every invocation of handler code is dominated by a deferred call of Config.Recover in a frame that invokes exactly one handler; each handler has its own WaitGroup-joined goroutine; the default hook calls recover() directly; the background dispatch is a detached go.",
       "Assumes Config.Recover is non-nil and recovers (the default is checked). Custom non-recovering hooks are outside what can be decided.",
       "DESIGN.md 5/C16")
+claim("C08", "abstract interpretation of strings (byte exclusion, truncation-at-separator, constant prefix with follow set) + who-may-send / who-may-write rules (static analysis)",
+      "Decided for all argument strings: the only value ever enqueued is Raw's parameter truncated at the first CR or LF (stdlib SplitN axiom), the only socket write is that dequeued value + CRLF followed by one Flush, nothing else is handed the socket, and every string an exported command method passes to Raw begins with that method's verb followed by a space or the end, so caller text cannot start a second command or change the verb.",
+      "Trusted: the SplitN contract written as an axiom; bufio writes verbatim. A hand-written cutting loop would be undecided and raise an alarm (accepted risk).",
+      "DESIGN.md 5/C08")
+claim("C20", "whole-module taint analysis over SSA with a prefix-refined sanitiser (static analysis)",
+      "Decided for all passwords, loggers and sessions: no value labelled by Config.Pass / the Pass parameter reaches any argument of any call into package logging (all call sites in client and state are sinks), except through the one accepted sanitiser - the false edge of HasPrefix(v, C) when every tainted string's constant prefix begins with C; no Config/Conn value is logged; no other logging channel exists in the library.",
+      "Trusted: go/ssa; aliasing is field/type/container-based; results of unknown external calls are tainted when an argument is, except listed payload-free I/O calls.",
+      "DESIGN.md 5/C20")
